@@ -1237,9 +1237,29 @@ class Evaluator:
         back = {jat: sym.idx()}
         apps = [e for e in evs if e.kind == 'append']
         stores = [e for e in evs if e.kind == 'store']
+        def one_value(es) -> Optional[Val]:
+            """the value appended in an iteration: one unconditional append, or the two branches of an if / else each appending once"""
+            if len(es) == 1 and not es[0].guard[len(st.guard):]:
+                return es[0].data['value']
+            if len(es) == 2:
+                g1, g2 = es[0].guard[len(st.guard):], es[1].guard[len(st.guard):]
+                if g1 and g2 and veq(self.conj(g2), p_not(self.conj(g1))):
+                    v1, v2 = es[0].data['value'], es[1].data['value']
+                    if isinstance(v1, Num) and isinstance(v2, Num) and v1.length is None and v2.length is None:
+                        return gamma(self.conj(g1), v1, v2)
+            return None
+        if len(apps) == 2 and not stores and not any(e.data.get('extend') for e in apps) and ctx.lo == C(0):
+            recvs = {e.node.func.value.id for e in apps if isinstance(e.node, ast.Call) and isinstance(e.node.func, ast.Attribute) and isinstance(e.node.func.value, ast.Name)}
+            v = one_value(apps)
+            if len(recvs) == 1 and isinstance(v, Num) and v.length is None:
+                nm = next(iter(recvs))
+                before = st.env.get(nm)
+                if isinstance(before, Tup) and before.kind == 'list' and not before.items:
+                    out[nm] = Num(sym.subst(v.r, back), ctx.hi, 'list')
+                    return out
         if not (ctx.lo == C(0)):
             # `for j in range(lo, hi): out.append(v(j))` on a literal list: the list followed by [v(lo + i) | i < hi - lo], one list per appended-to name
-            if apps and not stores and all(not e.guard[len(st.guard):] and not e.data.get('extend') for e in apps):
+            if apps and not stores and all(not e.data.get('extend') for e in apps):
                 shift = {jat: sym.idx() + ctx.lo}
                 by_name = {}
                 for e in apps:
@@ -1247,8 +1267,8 @@ class Evaluator:
                     by_name.setdefault(recv.id if isinstance(recv, ast.Name) else None, []).append(e)
                 for nm, es in by_name.items():
                     before = st.env.get(nm) if nm is not None else None
-                    v = es[0].data['value']
-                    if nm is None or len(es) != 1 or not (isinstance(before, Tup) and before.kind == 'list') or not (isinstance(v, Num) and v.length is None):
+                    v = one_value(es)
+                    if nm is None or v is None or not (isinstance(before, Tup) and before.kind == 'list') or not (isinstance(v, Num) and v.length is None):
                         continue
                     tail = Num(sym.subst(v.r, shift), ctx.hi - ctx.lo, 'list')
                     out[nm] = Term('cat', (before, tail), kind='list') if before.items else tail
